@@ -265,6 +265,11 @@ impl<'v> Array<'v> {
 
     pub(crate) fn extend_from_slice(&self, slice: &[Value<'v>]) {
         assert!(self.remaining_capacity() >= slice.len());
+        if slice.is_empty() {
+            // Nothing to write. In particular never write to the shared static empty array,
+            // which may be used by several threads at once.
+            return;
+        }
         unsafe {
             ptr::copy_nonoverlapping(slice.as_ptr(), self.mut_ptr_at(self.len()), slice.len());
             *self.len.get() += slice.len() as u32;
